@@ -454,3 +454,88 @@ Example early_cancel_example :
                      APumpEof 0; APumpEof 1; AJoined; AEmitCancelled; AEmitFinal])
      = [LSpawned; LRunning; LCancelReq; LCancelled; LStatus 3].
 Proof. vm_compute. split; reflexivity. Qed.
+
+(* ---- T1: the failure sites (Gen/TaskFailSites.v) ---- *)
+Lemma sites_wf_nth sites k f : sites_wf sites = true -> nth_error sites k = Some f -> fail_site_wf f = true.
+Proof.
+  unfold sites_wf. intros H Hk. rewrite forallb_forall in H. apply H. eapply nth_error_In. exact Hk.
+Qed.
+
+Lemma step_f_wf sites s a : sites_wf sites = true -> step_f sites s a = step s (erase_f sites a).
+Proof.
+  intros H. destruct a as [a|k].
+  - destruct a; reflexivity.
+  - unfold step_f, erase_f. destruct (nth_error sites k) as [f|] eqn:Hk; [|reflexivity].
+    pose proof (sites_wf_nth sites k f H Hk) as Hf. unfold fail_site_wf in Hf.
+    destruct f as [w r]. cbn [fs_where fs_returns] in Hf. destruct w; try discriminate Hf. subst r.
+    unfold fail_at, step. cbn [fs_where fs_returns]. destruct (s_main s); reflexivity.
+Qed.
+
+Lemma run_f_wf sites sched : sites_wf sites = true -> run_f sites sched = run (map (erase_f sites) sched).
+Proof.
+  intros H. unfold run_f, run. generalize sys0 as s.
+  induction sched as [|a r IH]; intros s; cbn [fold_left map]; [reflexivity|].
+  unfold step_skip_f at 2. rewrite (step_f_wf sites s a H). apply IH.
+Qed.
+
+Theorem lifecycle_language_sites : forall sites : list fail_site, sites_wf sites = true ->
+  forall sched : list act_f,
+  let s := run_f sites sched in
+  let t := trace s in
+  r_prefix_ok (recognise t) = true /\ (s_main s = MEnd <-> r_complete (recognise t) = true).
+Proof.
+  intros sites H sched. cbv zeta. rewrite (run_f_wf sites sched H). exact (lifecycle_language _).
+Qed.
+
+Theorem terminal_is_last_sites : forall sites : list fail_site, sites_wf sites = true ->
+  forall sched more : list act_f,
+  s_main (run_f sites sched) = MEnd -> trace (run_f sites (sched ++ more)) = trace (run_f sites sched).
+Proof.
+  intros sites H sched more. rewrite !(run_f_wf sites _ H), map_app. apply terminal_is_last.
+Qed.
+
+(* a task that ended without ever running was refused: its whole stream is Spawned . Status failed *)
+Theorem refused_stream_shape : forall sched : list act,
+  s_main (run sched) = MEnd -> ~ In LRunning (trace (run sched)) -> trace (run sched) = [LSpawned; LStatus 4].
+Proof.
+  intros sched HM HR. destruct (lifecycle_language sched) as [_ [Hc _]]. specialize (Hc HM).
+  pose proof (recognise_shape (trace (run sched))) as Hs.
+  destruct (recognise (trace (run sched))) eqn:Er; try discriminate Hc. cbn [shape] in Hs.
+  destruct Hs as [[_ Ht]|[[_ (ds & Ht & _)]|[_ (ds & ds' & Ht & _)]]].
+  - exact Ht.
+  - exfalso. apply HR. rewrite Ht. right. left. reflexivity.
+  - exfalso. apply HR. rewrite Ht. right. left. reflexivity.
+Qed.
+
+Lemma forallb_false_nth {A} (f : A -> bool) l : forallb f l = false -> exists k x, nth_error l k = Some x /\ f x = false.
+Proof.
+  induction l as [|x r IH]; cbn [forallb]; [discriminate|]. intros H.
+  destruct (f x) eqn:Ex.
+  - cbn in H. destruct (IH H) as (k & y & Hk & Hy). exists (S k), y. split; assumption.
+  - exists 0%nat, x. split; [reflexivity|exact Ex].
+Qed.
+
+(* the obligation is necessary: a site list with ANY ill-placed or non-returning site has a schedule whose
+   frames are not a prefix of a word of the language *)
+Theorem bad_site_refutes : forall sites : list fail_site, sites_wf sites = false ->
+  exists sched : list act_f, r_prefix_ok (recognise (trace (run_f sites sched))) = false.
+Proof.
+  intros sites H. destruct (forallb_false_nth _ _ H) as (k & [w r] & Hk & Hf).
+  unfold fail_site_wf in Hf. cbn [fs_where fs_returns] in Hf.
+  destruct w.
+  - exists [FFail k]. unfold run_f, step_skip_f, step_f. cbn [fold_left]. rewrite Hk.
+    destruct r; vm_compute; reflexivity.
+  - subst r. exists [FAct ASpawnFrame; FFail k; FFail k].
+    unfold run_f, step_skip_f, step_f. cbn [fold_left]. rewrite Hk. vm_compute. reflexivity.
+  - destruct r.
+    + exists [FAct ASpawnFrame; FAct AStartRunning; FFail k; FAct (APumpEmit 0)].
+      unfold run_f, step_skip_f, step_f. cbn [fold_left]. rewrite Hk. vm_compute. reflexivity.
+    + exists [FAct ASpawnFrame; FAct AStartRunning; FFail k; FFail k].
+      unfold run_f, step_skip_f, step_f. cbn [fold_left]. rewrite Hk. vm_compute. reflexivity.
+Qed.
+
+Example sites_example :
+  sites_wf [{| fs_where := FAfterSpawn; fs_returns := true |}; {| fs_where := FAfterSpawn; fs_returns := true |}] = true
+  /\ trace (run_f [{| fs_where := FAfterSpawn; fs_returns := true |}] [FFail 0; FAct ASpawnFrame; FFail 0; FFail 0; FAct AStartRunning])
+     = [LSpawned; LStatus 4].
+Proof. vm_compute. split; reflexivity. Qed.
